@@ -319,6 +319,13 @@ def module_cfg(spec, cls):
         cfg['slowinterval'] = spec['slowinterval']
     if spec.get('omit') is not None:
         cfg['omit_unchanged_within'] = spec['omit']
+    for p in spec['params']:
+        # the export property of a parameter given in the configuration (True, False or another wire name)
+        if p.get('cfg_export') is not None:
+            cfg.setdefault(p['name'], {})
+            if not isinstance(cfg[p['name']], dict):
+                cfg[p['name']] = {'value': cfg[p['name']]}
+            cfg[p['name']]['export'] = p['cfg_export']
     return cfg
 
 
